@@ -1384,22 +1384,22 @@ def gen_cls(node, code, codegen):
 def gen_color(node, code, codegen):
     if node.foreground is not None:
         codegen.gen_code_for_node(node.foreground, code)
-        if node.foreground.type != expr.Type.INTEGER:
-            code.add((f'conv{node.foreground.type.type_char}%',))
+        gen_code_for_conv(
+            expr.Type.INTEGER, node.foreground, code, codegen)
     else:
         code.add(('push%', -1))
 
     if node.background is not None:
         codegen.gen_code_for_node(node.background, code)
-        if node.background.type != expr.Type.INTEGER:
-            code.add((f'conv{node.background.type.type_char}%',))
+        gen_code_for_conv(
+            expr.Type.INTEGER, node.background, code, codegen)
     else:
         code.add(('push%', -1))
 
     if node.border is not None:
         codegen.gen_code_for_node(node.border, code)
-        if node.border.type != expr.Type.INTEGER:
-            code.add((f'conv{node.border.type.type_char}%',))
+        gen_code_for_conv(
+            expr.Type.INTEGER, node.border, code, codegen)
     else:
         code.add(('push%', -1))
 
